@@ -14,12 +14,13 @@
    default is never reached on well-formed arrays (length inner = height*width,
    lemma [shaped_*] in the proofs). *)
 From Coq Require Import ZArith NArith List Bool Arith.
-From SV Require Import Base.Num Base.Outcome Base.Mat.
+From SV Require Import Base.Num Base.Outcome Base.Mat Gen.Consts.
 Import ListNotations.
 Local Open Scope res_scope.
 
 (* pub const MAX_ITERATIONS: usize = 100_000; *)
-Definition MAX_ITERATIONS : N := 100000%N.
+(* re-read from power_method.rs on every run (Gen/Consts.v); [Eval compute] keeps the body a literal *)
+Definition MAX_ITERATIONS : N := Eval compute in Z.to_N Gen.Consts.power_max_iterations.
 
 Section Power.
   Context {T : Type} {NT : Num T}.
